@@ -119,7 +119,7 @@ func indepProbe(ty string) string {
 	msg := ""
 	select {
 	case <-doneB:
-	case <-time.After(3 * time.Second):
+	case <-time.After(8 * time.Second):
 		msg = "operations on a second tree do not complete while a Delete on the first waits for a cursor's leaf: trees of type " + ty + " returned by separate constructor calls share state"
 	}
 	cur.Close()
@@ -305,8 +305,13 @@ func main() {
 		if op == "indep" && len(args) == 1 {
 			// C12 "trees returned by separate calls share no state", the concurrent half that a
 			// sequential history cannot see (R7-C12-d: a tree-level mutex moved to package level)
+			// reported only if two attempts (8 s each) both time out: on correct code the second
+			// tree's operations need nothing of the first, so even a badly loaded machine cannot
+			// make the probe fire; a loaded machine can only make it miss
 			if msg := indepProbe(args[0]); msg != "" {
-				fail(nil, "independence", line, msg, "")
+				if msg2 := indepProbe(args[0]); msg2 != "" {
+					fail(nil, "independence", line, msg2, "")
+				}
 			}
 			emit("indep ok")
 			continue
